@@ -622,6 +622,20 @@ func NewPrng(src Source, requested int, needGMStrength bool, mk func(entropy, no
 	return p, nil
 }
 
+// ReseedNow is the wrapper's reaction to a reseed request that the counter does not explain (GM
+// mode: the reseed time interval elapsed): strength fresh bytes, no additional input.
+func (p *Prng) ReseedNow() error {
+	e, ok := p.Src(p.Strength)
+	if !ok {
+		return ErrSource
+	}
+	if err := p.G.Reseed(e, nil); err != nil {
+		return err
+	}
+	p.Reseeds++
+	return nil
+}
+
 // Read returns the bytes produced before an error together with the error (the package
 // reports n=0 on error; the workload accepts any n up to len(produced)).
 func (p *Prng) Read(n int) (produced []byte, err error) {
